@@ -16,7 +16,7 @@ def run(rep, tier, seed):
     yanks = [n for n in p_c06.spec_class("Yank") if n in avail]
     binds, seqs = private_binds(kills + yanks)
     maxlen = 3 if tier == "quick" else 4
-    bufs = class_buffers(maxlen, classes="wdbpqkWn") + CURATED
+    bufs = class_buffers(maxlen, classes="wdbpqkKWn") + CURATED
     states = p_c06.states(bufs, rng)
     args = [None, 2, -1] if tier == "quick" else [None, 1, 2, 3, -1, -2, 9]
     exps = []
@@ -40,7 +40,8 @@ def run(rep, tier, seed):
         bymode.setdefault(x[0], []).append(x)
     for mode, xs in bymode.items():
         for chunk in chunks(xs, per_session * spc):
-            cs = {"id": "c16-%s-%d" % (mode, ci), "inputrc": "set editing-mode vi\n" if mode.startswith("vi") else "", "w": 80, "h": 24,
+            cs = {"id": "c16-%s-%d" % (mode, ci), "inputrc": ("set editing-mode vi\n" if mode.startswith("vi") else "") + case_options(rng, ci, skip=("autocomplete",)),
+                  "w": 80, "h": 24,
                   "prompt": "> ", "binds": binds, "setups": [], "sessions": []}
             ci += 1
             for sub in chunks(chunk, per_session):
@@ -68,7 +69,8 @@ def run(rep, tier, seed):
     typed = []
     for i in range(30 if tier == "quick" else 300):
         mode = rng.choice(["emacs", "vi-command"])
-        cs = {"id": "c16t-%d" % i, "inputrc": "set editing-mode vi\n" if mode.startswith("vi") else "", "w": 80, "h": 24, "prompt": "> ",
+        cs = {"id": "c16t-%d" % i, "inputrc": ("set editing-mode vi\n" if mode.startswith("vi") else "") + case_options(rng, i, skip=("autocomplete",)),
+              "w": 80, "h": 24, "prompt": "> ",
               "setups": [], "sessions": []}
         sess = []
         for _ in range(40):
@@ -106,7 +108,7 @@ def run(rep, tier, seed):
 
     run_session_property(rep, cases + typed, p_c06.project, "EditorTrace", "EditorTrace_C16.cfg", "c16-run", nontrivial=nontrivial)
     rep.rule = ("every Kill-class command by name (%d) x numeric argument x every cursor (and mark) of every buffer of length <= %d over {word, digit, "
-                "blank, punct, quote, bracket, wide, newline} + curated shapes in emacs / vi-insert / vi-command, each followed by a yank (25%%: "
+                "blank, punct, quote, brackets, wide, newline} + curated shapes in emacs / vi-insert / vi-command, every second case with one library variable flipped (round-robin over all of them), each followed by a yank (25%%: "
                 "two kills first); plus typed default-binding sequences (C-k, C-w, M-d, C-u ... C-y; vi x/P with counts); quick: seeded sample; "
                 "non-trivial = distinct (kill command, buffer, cursor) that removed text and were followed by a yank that inserted" % (len(kills), maxlen))
     rep.exhaustive = False
